@@ -739,22 +739,21 @@ func inLoop(in ssa.Instruction) bool {
 	return false
 }
 
-// leavesLoopEarly: from the block of `in`, some path leaves the innermost enclosing loop without going back through
-// its header (a break or return after the instruction).
-func leavesLoopEarly(in ssa.Instruction) bool {
-	fn := in.Parent()
+// innermostLoopHeader: the header of the innermost natural loop containing b (nil when b is in no loop).
+func innermostLoopHeader(blk *ssa.BasicBlock) *ssa.BasicBlock {
 	var header *ssa.BasicBlock
-	for _, b := range fn.Blocks {
+	for _, b := range blk.Parent().Blocks {
 		for _, sc := range b.Succs {
-			if sc.Dominates(b) && sc.Dominates(in.Block()) && (header == nil || header.Dominates(sc)) {
+			if sc.Dominates(b) && sc.Dominates(blk) && core.Reachable(blk, nil)[sc] && (header == nil || header.Dominates(sc)) {
 				header = sc
 			}
 		}
 	}
-	if header == nil {
-		return true // not in a loop at all
-	}
-	// loop body: blocks dominated by the header from which the header is reachable
+	return header
+}
+
+// pathLeavesLoop: some path from start leaves the loop of header without going back through the header.
+func pathLeavesLoop(start, header *ssa.BasicBlock) bool {
 	inBody := func(b *ssa.BasicBlock) bool {
 		return header.Dominates(b) && core.Reachable(b, nil)[header]
 	}
@@ -775,8 +774,26 @@ func leavesLoopEarly(in ssa.Instruction) bool {
 		}
 		return len(b.Succs) == 0
 	}
+	return walk(start)
+}
+
+// leavesLoopEarly: from the block of `in`, some path leaves the innermost enclosing loop without going back through
+// its header (a break or return after the instruction).
+func leavesLoopEarly(in ssa.Instruction) bool {
+	fn := in.Parent()
+	var header *ssa.BasicBlock
+	for _, b := range fn.Blocks {
+		for _, sc := range b.Succs {
+			if sc.Dominates(b) && sc.Dominates(in.Block()) && (header == nil || header.Dominates(sc)) {
+				header = sc
+			}
+		}
+	}
+	if header == nil {
+		return true // not in a loop at all
+	}
 	for _, sc := range in.Block().Succs {
-		if walk(sc) {
+		if pathLeavesLoop(sc, header) {
 			return true
 		}
 	}
@@ -1401,4 +1418,84 @@ func c20R10(p *core.Program, r *core.Report) {
 		"SwitchRouter.Validate accepts a case type after lower-casing it, but "+exactConsumer+" compares the type exactly: a case spelled HAS_GROUP loads and routes by group membership while its group is missing from the inspected dependencies")
 	r.Require("case_type_decisions", len(uses), 3)
 	r.Require("case_type_decisions_in_validate", nV, 1)
+}
+
+// naturalLoopBody: the blocks of the natural loop(s) with header h (h itself and every block that reaches a back edge
+// source without passing through h); nil when h is not a loop header.
+func naturalLoopBody(h *ssa.BasicBlock) map[*ssa.BasicBlock]bool {
+	var body map[*ssa.BasicBlock]bool
+	for _, t := range h.Preds {
+		if !h.Dominates(t) {
+			continue
+		}
+		if body == nil {
+			body = map[*ssa.BasicBlock]bool{h: true}
+		}
+		var up func(b *ssa.BasicBlock)
+		up = func(b *ssa.BasicBlock) {
+			if body[b] {
+				return
+			}
+			body[b] = true
+			for _, pr := range b.Preds {
+				up(pr)
+			}
+		}
+		up(t)
+	}
+	return body
+}
+
+// lexicalLoopHeader: the header of the innermost loop whose body lexically contains blk: blk is dominated by a
+// successor of the header that belongs to the loop. Unlike the natural loop this includes blocks that always leave the
+// loop (the arm of an `if` that ends in break or return).
+func lexicalLoopHeader(blk *ssa.BasicBlock) *ssa.BasicBlock {
+	var header *ssa.BasicBlock
+	for _, h := range blk.Parent().Blocks {
+		if !h.Dominates(blk) || h == blk {
+			continue
+		}
+		body := naturalLoopBody(h)
+		if body == nil {
+			continue
+		}
+		for _, sc := range h.Succs {
+			if body[sc] && sc != h && sc.Dominates(blk) && (header == nil || header.Dominates(h)) {
+				// an exit of the loop is not dominated by a body successor unless the header has no exit of its own (`for {}`)
+				hasExit := false
+				for _, s2 := range h.Succs {
+					if !body[s2] {
+						hasExit = true
+					}
+				}
+				if hasExit {
+					header = h
+				}
+			}
+		}
+	}
+	return header
+}
+
+// edgeLeavesLoop: some path from start gets out of the natural loop of header without going back through the header.
+func edgeLeavesLoop(start, header *ssa.BasicBlock) bool {
+	body := naturalLoopBody(header)
+	seen := map[*ssa.BasicBlock]bool{}
+	var walk func(b *ssa.BasicBlock) bool
+	walk = func(b *ssa.BasicBlock) bool {
+		if b == header || seen[b] {
+			return false
+		}
+		seen[b] = true
+		if !body[b] {
+			return true
+		}
+		for _, sc := range b.Succs {
+			if walk(sc) {
+				return true
+			}
+		}
+		return false
+	}
+	return walk(start)
 }
